@@ -392,10 +392,9 @@ class Interval(NominalValueMixin):
         if self_straddle_zero:
             raise ZeroDivisionError
         if (leftType == "ndarray") | (leftType in NUMERIC_TYPES):
-            if left >= 0:
-                lo, hi = left / self_hi, left / self_lo
-            else:
-                lo, hi = left / self_lo, left / self_hi
+            left_positive = left >= 0
+            lo = numpy.where(left_positive, left / self_hi, left / self_lo)
+            hi = numpy.where(left_positive, left / self_lo, left / self_hi)
         else:
             return NotImplemented
         return Interval(lo, hi)
@@ -455,6 +454,17 @@ class Interval(NominalValueMixin):
             return NotImplemented
         if "out" in kwargs and kwargs["out"] is not None:
             return NotImplemented
+
+        # numpy scalar / ndarray on the left of + - * / : use the reflected operators
+        if len(inputs) == 2 and inputs[1] is self and not isinstance(inputs[0], Interval):
+            if ufunc is np.add:
+                return self.__radd__(inputs[0])
+            if ufunc is np.subtract:
+                return self.__rsub__(inputs[0])
+            if ufunc is np.multiply:
+                return self.__rmul__(inputs[0])
+            if ufunc is np.true_divide:
+                return self.__rtruediv__(inputs[0])
 
         if ufunc is np.sin:
             return self.sin()
